@@ -52,7 +52,7 @@ ShapeNames == {"none", "gv", "sv", "gv+sv", "gw", "gv+gw", "sv+gw"}
 KeysOf(shape) == CASE shape = "none" -> {} [] shape = "gv" -> {"gv"} [] shape = "sv" -> {"sv"}
                    [] shape = "gv+sv" -> {"gv", "sv"} [] shape = "gw" -> {"gw"} [] shape = "gv+gw" -> {"gv", "gw"}
                    [] shape = "sv+gw" -> {"sv", "gw"}
-ASSUME Shapes \subseteq ShapeNames /\ MaxLen \in 1..4 /\ NumPres \in 1..8
+ASSUME Shapes \subseteq ShapeNames /\ "none" \in Shapes /\ MaxLen \in 1..4 /\ NumPres \in 1..8
 
 FName == <<"f1", "f2", "f3">>
 Val(f, k) == FName[f] \o "." \o k
@@ -120,7 +120,10 @@ PresentationIrrelevant == [][(order' = order /\ shape' = shape) => (agg' = agg /
 OrderNeverMatters == Expected(order) = Expected(Reverse(order))
 
 ---------------------------------------------------------------------------
-EmitCase == (Emit /\ Len(order) > 0 /\ pres = 0) =>
+(* files that are not in the list are never read: only the cases in which they define nothing are emitted (the invariants *)
+(* above are checked on all states)                                                                                 *)
+Canonical == \A f \in Files : (\A i \in 1..Len(order) : order[i] # f) => shape[f] = "none"
+EmitCase == (Emit /\ Len(order) > 0 /\ pres = 0 /\ Canonical) =>
                PrintT(ToJson([shape |-> shape, order |-> order, expected |-> Expected(order),
                               sensitive |-> Expected(order) # Expected(Reverse(order))]))
 =============================================================================
